@@ -53,13 +53,14 @@ def make_replayer(exe):
 def run(prop, tier):
     t0 = time.time()
     exe, rep = build(prop)
+    planted = core.selftest(exe, 'the field explorer (wrong spec row)')
     timeout = 1500 if tier == 'thorough' else 600
     res = core.run_slices(exe, ['--suite', prop, '--tier', tier], timeout=timeout)
     rule, bounds = RULES[prop]
     unc = [u for u in rep['uncovered'] if u not in core.HANDWRAPPED]
     core.finish(prop, tier, t0, res, rule=rule, bounds=bounds, assumptions=ASSUME,
                 recipe={'engine': 'fields', 'suite': prop}, replayer=make_replayer(exe),
-                extra_cov={'formats': rep['formats'], 'fields': rep['fields'], 'uncovered_accessors': unc})
+                extra_cov={'planted_bug_selftest': 'wrong spec row for Can.pad: %d mismatches reported, as required' % planted, 'formats': rep['formats'], 'fields': rep['fields'], 'uncovered_accessors': unc})
 
 
 def replay(prop, case):
